@@ -1,16 +1,16 @@
 """Per-property claims (source of MANIFEST.json; tools/gen_manifest.py renders it)."""
 HOOK_COMMITS = []
 ENGINES = [
-    {"name": "lean-model", "path": "lean/", "serves_properties": ["C01", "C02", "C03", "C04", "C05", "C07", "C13", "C11", "C12", "C16", "C17", "C20"],
+    {"name": "lean-model", "path": "lean/", "serves_properties": ["C01", "C02", "C03", "C04", "C05", "C07", "C09", "C13", "C11", "C12", "C16", "C17", "C20"],
      "kind_free_text": "Lean 4 library Dbus (Spec, Model, Proofs, Props) + compiled line-protocol driver dbus-model"},
-    {"name": "tabulator", "path": "gen/", "serves_properties": ["C01", "C02", "C03", "C04", "C05", "C07", "C13", "C11", "C12", "C16", "C17", "C20"],
+    {"name": "tabulator", "path": "gen/", "serves_properties": ["C01", "C02", "C03", "C04", "C05", "C07", "C09", "C13", "C11", "C12", "C16", "C17", "C20"],
      "kind_free_text": "C translation units that #include repo sources and print finite tables; rendered to lean/Dbus/Generated"},
-    {"name": "h-lib", "path": "harness/lib/", "serves_properties": ["C01", "C02", "C03", "C04", "C05", "C07", "C13", "C11", "C12", "C16", "C17", "C20"],
+    {"name": "h-lib", "path": "harness/lib/", "serves_properties": ["C01", "C02", "C03", "C04", "C05", "C07", "C09", "C13", "C11", "C12", "C16", "C17", "C20"],
      "kind_free_text": "in-process C harnesses linked against the ASan/UBSan build of the working tree"},
 ]
 PENDING = "not implemented yet in this round (planned, see DESIGN.md §4/§7); no check is claimed"
 NOT_APPLICABLE = {p: PENDING for p in
-                  [ "C06", "C08", "C09", "C10", "C14", "C15",
+                  [ "C06", "C08", "C10", "C14", "C15",
                    "C18", "C19"]}
 BUS_TIE = ("The bus model (lean/Dbus/Model/Bus: dispatch, driver methods, registry, match delivery, policy gate, pending replies, "
            "disconnect cleanup; method table regenerated from bus/driver.c) is tied to the real dbus-daemon (ASan/UBSan build of the working "
@@ -51,6 +51,19 @@ CHECKS = {
                 "Five limit profiles with small limits (rules 3, names 3, completed 3 / per user 2 with connections of three uids, replies 2, "
                 "max_message_size 1024 with messages of exactly limit-9..limit+64 bytes and shuffled header fields).",
         "note": "max_incomplete_connections / auth timeouts (not-yet-authenticated connections) are outside the model: they concern the listener, not step; recorded as partial.",
+    },
+    "C09": {
+        "text": "Proved in Lean for every state and message: under a policy that lets replies out only when requested (stated as a "
+                "predicate on the sender's rule list) a method return or error from s to r with no recorded slot (r called s, that "
+                "serial, unanswered) is refused as AccessDenied (reply_without_slot_refused); a reply that finds its slot uses it up "
+                "whether or not it then passes (reply_consumes_slot), so with the duplicate-free pending list of every reachable state "
+                "(pending_never_duplicated, leaf induction) a second reply finds none (second_reply_finds_no_slot); a call flagged "
+                "NO_REPLY_EXPECTED opens no slot, a call reusing an outstanding serial is refused; when the callee vanishes or the reply "
+                "timeout elapses every waiting caller gets at most one NoReply per slot, from the bus, and the slots go "
+                "(callee_gone_one_noreply_each, timeout_one_noreply_each, noReply_shape). " + BUS_TIE +
+                "Run under a requested-replies-only policy (system bus default) with forged, duplicate, wrong-serial, third-party and "
+                "serial-0 replies, max_replies 2, and reply_timeout 300 ms with a real sleep.",
+        "note": "Partial: 'exactly one NoReply' is 'at most one, exactly one unless the caller's own receive policy refuses the bus's error'; the max_outgoing_bytes refusal (recipient not reading) is outside the model (seeded change C09-2 is not detected).",
     },
     "C04": {
         "text": "The specification's RequestName/ReleaseName rules are written out in Lean (Spec/Names.lean, from doc/dbus-specification.xml). "
